@@ -54,10 +54,30 @@ def primaryRefcode (p : APel) : Option Text :=
     | .src true x => some (stripSp x.ascii)
     | _ => none)
 
-/-- what a --list entry shows, written from the fields of the PEL -/
+/-- the primary SRC of the PEL (the first one), if it has one -/
+def primarySrc (p : APel) : Option ASrc :=
+  p.sections.findSome? fun sec => match sec.body with
+    | .src true x => some x
+    | _ => none
+
+/-- the registry message of the primary SRC: the `Message` member of its "Error Details", which only BMC / power / hostboot
+    SRCs with a matching registry entry (and a non-empty message) have -/
+def primaryMessage (env : Env) (p : APel) : Option J :=
+  (primarySrc p).bind fun x =>
+    if x.ascii.take 2 = s "BD" ∨ x.ascii.take 2 = s "11" ∨ x.ascii.take 2 = s "BC" then
+      match errorDetails env.src.registry x.ascii x.words with
+      | .some ms => objGet? ms (s "Message")
+      | _ => none
+    else none
+
+/-- what a --list entry shows, written from the fields of the PEL (member order as `parsePELSummary` stores them: `SRC`,
+    `Message` — only when the registry supplies one —, `PLID`, …) -/
 def specSummary (env : Env) (p : APel) : List (Text × J) :=
   (match primaryRefcode p with
     | some rc => [(s "SRC", J.str rc)]
+    | none => []) ++
+  (match primaryMessage env p with
+    | some m => [(s "Message", m)]
     | none => []) ++
   [(s "PLID", .str (ox (fmtHex 2 p.ph.plid))),
    (s "CreatorID", .str ((lookupT env.T.creators [p.ph.creator]).getD (s "Unknown"))),
@@ -99,9 +119,67 @@ theorem summary_matches_full (env : Env) (p : APel) (ph uh : List (Text × J)) (
   rw [objGet?_cons_eq, Option.some.injEq, renderPH_obj, J.obj.injEq] at hph
   rw [objGet?_cons_ne _ _ _ _ hne, objGet?_cons_eq, Option.some.injEq, renderUH_obj, J.obj.injEq] at huh
   subst hph huh
-  obtain ⟨h1, h2, h3, h4, h5, h6⟩ := specFields_get env p (primaryRefcode p)
+  obtain ⟨h1, h2, h3, h4, h5, h6⟩ := specFields_get env p (primaryRefcode p) (primaryMessage env p)
   rw [ph_get_plid, ph_get_creator, ph_get_commit, ph_get_createdby, uh_get_subsys, uh_get_sev]
   exact ⟨h1, h2, h3, h4, h5, h6⟩
+
+/-- the `Message` member of a --list entry (present only when the message registry supplies one) is the `Message` of the
+    "Error Details" of the full decode's Primary SRC: `x` is the primary SRC, `renderSrc …` what the full decode shows for it -/
+theorem summary_message_matches_full (env : Env) (p : APel) (x : ASrc) (hx : primarySrc p = some x) (h : AHdr) (creator : Text) :
+    ∃ l, renderSrc env.T env.src h creator env.allowPlugins x = .obj l ∧
+      objGet? (specSummary env p) (s "Message") =
+        (objGet? l (s "Error Details")).bind fun e => match e with
+          | .obj ms => objGet? ms (s "Message")
+          | _ => none := by
+  obtain ⟨l, hl, hg⟩ := renderSrc_errorDetails env.T env.src h creator env.allowPlugins x
+  refine ⟨l, hl, ?_⟩
+  rw [hg]
+  have hrest : ∀ (a : List (Text × J)) (m : Option J),
+      objGet? ((match primaryRefcode p with
+          | some rc => [(s "SRC", J.str rc)]
+          | none => []) ++ (match m with
+          | some m => [(s "Message", m)]
+          | none => []) ++ a) (s "Message") = match m with
+          | some m => some m
+          | none => objGet? a (s "Message") := by
+    intro a m
+    cases primaryRefcode p <;> cases m <;>
+      simp [objGet?, (by decide : s "SRC" ≠ s "Message")]
+  unfold specSummary
+  rw [hrest]
+  rw [objGet?_none_of_keys _ (s "Message") (by
+    intro q hq
+    simp only [List.mem_cons, List.not_mem_nil, or_false] at hq
+    rcases hq with rfl | rfl | rfl | rfl | rfl | rfl <;> (show s _ ≠ s "Message"; decide))]
+  simp only [primaryMessage, hx, Option.bind_some]
+  by_cases hc : x.ascii.take 2 = s "BD" ∨ x.ascii.take 2 = s "11" ∨ x.ascii.take 2 = s "BC"
+  · simp only [hc, if_true]
+    cases hed : errorDetails env.src.registry x.ascii x.words with
+    | some ms =>
+      simp only [Option.bind_some]
+      cases hm : objGet? ms (s "Message") <;> rfl
+    | none => rfl
+    | fail => rfl
+    | unsupported => rfl
+  · simp only [hc, if_false]
+    rfl
+
+/-- non-vacuity: a registry with one entry, a BD SRC that matches it; the --list entry of a PEL with that primary SRC has the
+    member `Message` with the text the registry builds, right after `SRC` -/
+def msgReg : List RegEntry := [
+  { reasonCode := some (s "0x2600"), type := none, message := s "rc %1, then %2", argSources := some [s "SRCWord6", s "SRCWord9"],
+    words := [{ num := s "6", desc := some (s "the rc"), prop := some (s "RC") }] }]
+def msgSrc : ASrc :=
+  { version := 2, flagsHi := 0, resv1 := 0, wordCount := 9, resv2 := 0, size := 72,
+    words := [0, 0, 0, 0, 0xAB, 0, 0, 0x10], ascii := s "BD702600" ++ List.replicate 24 32, callouts := none }
+example (env : Env) (hr : env.src.registry = msgReg) (ph : APH) (uh : AUH) (h : AHdr) :
+    (specSummary env { ph := ph, uh := uh, sections := [{ hdr := h, body := .src true msgSrc }] }).take 2 =
+      [(s "SRC", .str (s "BD702600")), (s "Message", .str (s "rc 0xab, then 0x10"))] := by
+  have h1 : errorDetails msgReg msgSrc.ascii msgSrc.words =
+      .some [(s "Message", .str (s "rc 0xab, then 0x10")), (s "RC", .arr [.num 0xAB, .str (s "the rc")])] := rfl
+  have h2 : msgSrc.ascii.take 2 = s "BD" := by decide
+  have h3 : stripSp msgSrc.ascii = s "BD702600" := by decide
+  simp [specSummary, primaryRefcode, primaryMessage, primarySrc, hr, h1, h2, h3, objGet?]
 
 /-- ★ --show-pel-count reports the number of selected PELs -/
 theorem count_eq (env : Env) (o : CliOpts) (files : AFiles) (hg : GoodDir env files) :
